@@ -121,6 +121,25 @@ func runC07(c *fw.Ctx) {
 			}
 		}
 	}
+	// ---- sampled pairs with sizes up to 7 ----
+	for i := 0; i < c.Pick(2000, 20000); i++ {
+		c.Case(func(k *fw.K) {
+			dst := BigShape(k.Rng, 1, 300)
+			srcs := BroadcastSources(dst)
+			masks := subsets(2)
+			for {
+				sa, sb := srcs[k.Rng.Intn(len(srcs))], srcs[k.Rng.Intn(len(srcs))]
+				if bs, err := ref.BroadcastShape(sa, sb); err == nil && ref.SameShape(bs, dst) {
+					if k.Rng.Intn(4) == 0 {
+						run(k, ref.Instr{Op: "broadcast", Shape: dst}, []*ref.T{u(k, sa)}, []bool{true})
+					} else {
+						run(k, ref.Instr{Op: c03Arith[k.Rng.Intn(4)]}, []*ref.T{u(k, sa), u(k, sb)}, masks[k.Rng.Intn(3)])
+					}
+					return
+				}
+			}
+		})
+	}
 	// ---- sampled high-rank pairs ----
 	for i := 0; i < c.Pick(5000, 50000); i++ {
 		c.Case(func(k *fw.K) {
